@@ -1260,6 +1260,11 @@ class Bits:
         assert start <= end
         assert bitstring.options.lsb0
 
+        if bytealigned:
+            # Byte alignment refers to the lsb0 position, so it can't be delegated to the msb0 search.
+            for p in self._findall_lsb0(bs, start, end, 1, True):
+                return (p,)
+            return ()
         new_slice = bitstring.bitstore.offset_slice_indices_lsb0(slice(start, end, None), len(self))
         msb0_start, msb0_end = self._validate_slice(new_slice.start, new_slice.stop)
         p = self._rfind_msb0(bs, msb0_start, msb0_end, bytealigned)
@@ -1377,6 +1382,12 @@ class Bits:
         new_slice = bitstring.bitstore.offset_slice_indices_lsb0(slice(start, end, None), len(self))
         msb0_start, msb0_end = self._validate_slice(new_slice.start, new_slice.stop)
 
+        if bytealigned:
+            # Byte alignment refers to the lsb0 position: take the first msb0 match whose lsb0 position is aligned.
+            for q in self._bitstore.findall_msb0(bs._bitstore, msb0_start, msb0_end, False):
+                if (len(self) - q - len(bs)) % 8 == 0:
+                    return (len(self) - q - len(bs),)
+            return ()
         p = self._find_msb0(bs, msb0_start, msb0_end, bytealigned)
         if p:
             return (len(self) - p[0] - len(bs),)
